@@ -34,7 +34,8 @@ func init() {
 	}
 	fw.Register(&fw.Prop{
 		ID:       "C04",
-		Parallel: 4, // cases are judged on 4 goroutines per shard: the library functions are stateless, shared state inside them shows up as wrong verdicts
+		Builds:   []string{"default", "386"}, // the 386 build runs a quarter of the random classes on a 32-bit target
+		Parallel: 4,                          // cases are judged on 4 goroutines per shard: the library functions are stateless, shared state inside them shows up as wrong verdicts
 		Rule: "strings built by the model encoder from arbitrary 5-bit symbol sequences of every length 0..84 (random symbols, whole-byte data, forced zero / non-zero padding) under human-readable parts of 1..83 characters over 33..126 (with '1' inside, digits only, lower or upper case), total lengths on both sides of 90; " +
 			"mutations of them: upper-casing, one letter in the other case, substitution by any byte 0..255, by another charset character, insertion, deletion, truncation around the checksum, separator removed / first / last, white space, multi-byte runes whose case mapping changes the byte length (U+212A, U+0130, U+0131, U+017F) put in place of k/i/s and inserted before and after the separator, invalid UTF-8; uniformly random byte strings and random charset strings. " +
 			"Every Decode call is judged two-sidedly against the model (accept iff BIP-173-valid and the data regroups 5->8 without padding violation), outputs compared, Encode(hrp, data) compared with the lower-cased input, SyntaxError.Offset required in [0, len]. " +
@@ -477,7 +478,9 @@ func gen(g *fw.Gen) {
 	// acceptance-set scan: targeted constants on every shard, one random 2^22 chunk of checksum values per shard
 	// (quick) or all 256 chunks = every one of the 2^30 checksum values of one string (thorough)
 	g.Emit("acceptset", fw.Pack(fw.U64(r.Uint64()), []byte{0}, fw.U32(0)))
-	if g.Quick() {
+	if g.Build == "386" {
+		// the scan of checksum values is run on the native build only
+	} else if g.Quick() {
 		g.Emit("acceptset", fw.Pack(fw.U64(r.Uint64()), []byte{1}, fw.U32(uint32(r.Intn(256)))))
 	} else {
 		for c := 0; c < 256; c++ {
@@ -487,7 +490,7 @@ func gen(g *fw.Gen) {
 		}
 	}
 	// every symbol count 0..84, several times over
-	reps := g.Pick(600, 54000)
+	reps := g.Scaled(g.Pick(600, 54000))
 	idx := 0
 	for rep := 0; rep < reps; rep++ {
 		for nsym := 0; nsym <= 84; nsym++ {
